@@ -81,6 +81,17 @@ fn cookie(s: &Spec, now: u64) -> (Option<Vec<u8>>, Option<bool>) {
             // s.text = hex of the key the forger uses: a piece of the configured secret
             (Some(sign(&body(now - 5, CLIENT), &common::unhex(&s.text))), Some(common::unhex(&s.text) == sec))
         }
+        "ip-pair" => {
+            // s.text = "<client address>|<address inside the cookie>": two different addresses that some
+            // conversion between the IPv4 and IPv6 forms would make equal (IPv4-compatible ::a.b.c.d, 6to4,
+            // NAT64, ::1 against 0.0.0.1). Only an IPv4 address and its IPv4-mapped form ::ffff:a.b.c.d denote the
+            // same host; that pair is run for robustness only.
+            let (client, inside) = s.text.split_once('|').unwrap();
+            let (a, b): (std::net::SocketAddr, std::net::SocketAddr) = (client.parse().unwrap(), inside.parse().unwrap());
+            let mapped = |x: std::net::IpAddr, y: std::net::IpAddr| matches!((x, y), (std::net::IpAddr::V4(v4), std::net::IpAddr::V6(v6)) if v6.to_ipv4_mapped() == Some(v4));
+            let verdict = if a.ip() == b.ip() { Some(true) } else if mapped(a.ip(), b.ip()) || mapped(b.ip(), a.ip()) { None } else { Some(false) };
+            (Some(sign(&body(now - 5, inside), &sec)), verdict)
+        }
         "ip" => {
             let same_ip = s.text.rsplit_once(':').map(|(ip, _)| ip) == CLIENT.rsplit_once(':').map(|(ip, _)| ip);
             (Some(sign(&body(now - 5, &s.text), &sec)), Some(same_ip))
@@ -159,6 +170,9 @@ fn build(s: &Spec, now: u64) -> (Case, Option<bool>) {
     case.cfg.auth_secret = secret(s);
     case.cfg.expiry = s.expiry;
     case.cfg.client_addr = CLIENT.parse().unwrap();
+    if s.kind == "ip-pair" {
+        case.cfg.client_addr = s.text.split_once('|').unwrap().0.parse().unwrap();
+    }
     let asked = s.intent == 3 && s.secret_hex.is_some();
     let (payload, verdict) = if asked { cookie(s, now) } else { (None, Some(false)) };
     let login = Login { intent: s.intent, auth_cookie: asked.then_some(payload), ..Default::default() };
@@ -258,6 +272,27 @@ fn specs(cookie_len: usize, thorough: bool) -> Vec<Spec> {
     }
     for addr in ["198.51.100.8:40123", "10.0.0.1:40123", "[2001:db8::7]:40123", "198.51.100.7:1", "198.51.100.7:65535", "[::ffff:198.51.100.8]:40123"] {
         v.push(sp(3, Some(k), "ip", 0, 21_600, addr));
+    }
+    for pair in [
+        "198.51.100.7:40123|[::198.51.100.7]:40123",
+        "198.51.100.7:40123|[::ffff:198.51.100.7]:40123",
+        "198.51.100.7:40123|[2002:c633:6407::]:40123",
+        "198.51.100.7:40123|[64:ff9b::c633:6407]:40123",
+        "[::198.51.100.7]:40123|198.51.100.7:40123",
+        "[::ffff:198.51.100.7]:40123|198.51.100.7:40123",
+        "[::ffff:198.51.100.7]:40123|[::ffff:198.51.100.7]:1",
+        "[::ffff:198.51.100.7]:40123|[::198.51.100.7]:40123",
+        "[::1]:40123|0.0.0.1:40123",
+        "0.0.0.1:40123|[::1]:40123",
+        "[::102:304]:40123|1.2.3.4:40123",
+        "1.2.3.4:40123|[::102:304]:40123",
+        "[2001:db8::7]:40123|[2001:db8::7]:9",
+        "[2001:db8::7]:40123|[2001:db8:0:0:0:0:0:8]:40123",
+        "[fe80::1]:40123|[fe80::1]:40123",
+        "127.0.0.1:40123|[::1]:40123",
+        "[::]:40123|0.0.0.0:40123",
+    ] {
+        v.push(sp(3, Some(k), "ip-pair", 0, 21_600, pair));
     }
     for expiry in [0u64, 1, 60, 21_600] {
         let e = expiry as i64;
@@ -401,7 +436,7 @@ pub fn run(cli: Cli) -> ! {
     rep.set("clock_retries", json!(retries.load(Ordering::Relaxed)));
     rep.set("cookie_length_bytes", json!(sample_cookie.len()));
     rep.set("exhaustive", json!(true));
-    rep.set("rule", json!("one connection per cookie variant: every truncation length, every single-bit flip of tag and body (thorough: also every pair of tag bits and every tag bit together with every fourth body bit), other secret, 6 addresses, ages {0, e-2, e-1, e, e+1, e+2, e+10^6, -1} x expiry {0,1,60,21600}, 10 signed bodies that are not a cookie, 5 secret length classes, 10 structured secrets (lines, separators, padding) x cookies signed with each piece, prefix, suffix, trimmed form and the empty key, intent x secret combinations without a cookie branch; 12 cookie situations x authentication latency {4 s, 8 s, 40 s} x service verdict {vouches, refuses}; 3 cookies that are valid when the connection starts and expired (2.1 s of real time later) when presented; 4 histories in which the cookie is the one the router itself issued on a first connection, presented at once and after its expiry has passed in real time. Every spec is distinct."));
+    rep.set("rule", json!("one connection per cookie variant: every truncation length, every single-bit flip of tag and body (thorough: also every pair of tag bits and every tag bit together with every fourth body bit), other secret, 6 addresses, 17 pairs of client address and cookie address that a conversion between the IPv4 and IPv6 forms could confuse, ages {0, e-2, e-1, e, e+1, e+2, e+10^6, -1} x expiry {0,1,60,21600}, 10 signed bodies that are not a cookie, 5 secret length classes, 10 structured secrets (lines, separators, padding) x cookies signed with each piece, prefix, suffix, trimmed form and the empty key, intent x secret combinations without a cookie branch; 12 cookie situations x authentication latency {4 s, 8 s, 40 s} x service verdict {vouches, refuses}; 3 cookies that are valid when the connection starts and expired (2.1 s of real time later) when presented; 4 histories in which the cookie is the one the router itself issued on a first connection, presented at once and after its expiry has passed in real time. Every spec is distinct."));
     rep.sample(json!({"spec": all[0]}));
     rep.sample(json!({"spec": sp(3, Some("6b"), "age", 60, 60, ""), "expect": "accepted (age == expiry) if the wall-clock second does not tick during the run, else repeated"}));
     rep.sample(json!({"spec": sp(3, Some("6b"), "bitflip", 255, 21600, ""), "expect": "must authenticate"}));
